@@ -229,7 +229,8 @@ func (gw *inclusiveGateway) Element() schema.FlowNodeInterface {
 }
 
 type flowTracker struct {
-	traces     <-chan tracing.ITrace
+	tracer     tracing.ITracer
+	traces     chan tracing.ITrace
 	shutdownCh chan bool
 	flows      map[id.Id]schema.Id
 	activityCh chan struct{}
@@ -243,6 +244,7 @@ func (tracker *flowTracker) activity() <-chan struct{} {
 
 func newFlowTracker(tracer tracing.ITracer, element *schema.InclusiveGateway) *flowTracker {
 	tracker := flowTracker{
+		tracer:     tracer,
 		traces:     tracer.Subscribe(),
 		shutdownCh: make(chan bool),
 		flows:      make(map[id.Id]schema.Id),
@@ -286,6 +288,9 @@ func (tracker *flowTracker) run() {
 			if locked {
 				tracker.lock.Unlock()
 			}
+			// stop receiving traces: an abandoned subscription would block
+			// the tracer as soon as its buffer is full
+			tracker.tracer.Unsubscribe(tracker.traces)
 			return
 		default:
 			// Nothing else is coming in, unlock if locked
@@ -317,6 +322,9 @@ func (tracker *flowTracker) run() {
 			if locked {
 				tracker.lock.Unlock()
 			}
+			// stop receiving traces: an abandoned subscription would block
+			// the tracer as soon as its buffer is full
+			tracker.tracer.Unsubscribe(tracker.traces)
 			return
 		}
 
